@@ -83,6 +83,11 @@ SPECS += [
     {"ddl": "CREATE TABLE xr1 (x int, CONSTRAINT ck CHECK (x ^ 3 < 9));\n", "ctor": {"silent": True}},
     {"ddl": "CREATE TABLE xr2 (id int PRIMARY KEY, flags int DEFAULT 0, CHECK (flags ^ 255 >= 0));\n", "ctor": {"silent": True}},
 ]
+SPECS += [
+    # typographic quotes (the pre-processor turns them into plain ones): two scripts that both need that translation
+    {"ddl": "CREATE TABLE tq1 (a varchar(10) DEFAULT \u2018new\u2019 COMMENT \u2018first table\u2019, b int);\n", "ctor": {}, "run": {"output_mode": "hql"}},
+    {"ddl": "CREATE TABLE tq2 (c varchar(10) DEFAULT \u2018old\u2019, d int COMMENT \u2018second table\u2019);\nCREATE TABLE tq3 (e int);\n", "ctor": {}, "run": {"output_mode": "hql"}},
+]
 TWINS = [(0, 12), (0, 13), (12, 13), (2, 14), (15, 16), (17, 18), (1, 19), (6, 20), (21, 22), (21, 1), (27, 28), (29, 30), (29, 4), (31, 32)]
 
 
